@@ -460,6 +460,10 @@ fn call(f: &str, a: &[V], cx: &mut Cx) -> Result<Vec<V>, Stop> {
             for &x in &v[1..] {
                 if (f == "min" && x < m) || (f == "max" && x > m) { m = x; }
             }
+            // -0 and +0 compare equal: which of them is "the" extremum is not specified
+            if m == 0.0 && v.iter().any(|x| *x == 0.0 && x.is_sign_negative() != m.is_sign_negative()) {
+                return undef("extremum among zeros of both signs");
+            }
             n1(m)
         }
         // the IEEE additive identity is -0.0 (x + -0.0 = x for every x, including -0.0)
@@ -1325,7 +1329,9 @@ fn malformed_stream(rep: &mut Report, drv: &mut Driver, rng: &mut Rng, n: usize)
         let mdl = model_eval_attr(drv, &vars, seed, &value)?;
         let vj: Vec<serde_json::Value> = vars.iter().map(|(a, b)| json!([a, b])).collect();
         let replay = json!({"input": value, "vars": vj, "seed": seed, "kind": "eval_attr", "expect": {"must_fail": kind}});
-        if let Some((sig, what)) = compare(&mut st, &imp, &mdl, false) {
+        if mdl == Out::Err("nanOrder".into()) {
+            st.skipped += 1;
+        } else if let Some((sig, what)) = compare(&mut st, &imp, &mdl, false) {
             rep.violation(Violation { kind: "correspondence", stream: st.name.clone(), signature: format!("malformed:{kind}:{sig}"), what, replay: replay.clone(), confirmed_on_impl: false });
         }
         match &imp {
